@@ -1,10 +1,9 @@
 (* C05: bookkeeping invariants (exact instance). *)
 From Coq Require Import ZArith List String Bool QArith Qcanon Lia Lqa Psatz Sorted.
-From Hgm Require Import NumOps Xq Agg Ops XqFacts SL KeyFacts AggInd LeafAlg Algebra MulAlg Rollback Stream.
+From Hgm Require Import NumOps Xq Agg Ops XqFacts SL KeyFacts AggInd LeafAlg Algebra MulAlg Rollback Stream StackLists.
 Import ListNotations.
 Local Open Scope Qc_scope.
 
-Definition nonneg (x : xq) : Prop := exists q, x = XF q /\ 0 <= q.
 Definition esum (l : list xq) : xq := fold_right xadd (XF 0) l.
 Definition kid_entries (fx : list xagg) (sp : list (key * xagg)) : list xq :=
   map (@entries_of Xq) fx ++ map (fun kc => @entries_of Xq (snd kc)) sp.
@@ -30,14 +29,14 @@ Proof. intros (q & -> & H). exists q. split; auto. apply Qclt_le_weak. exact H. 
 Lemma nonneg_0 : nonneg (XF 0).
 Proof. exists 0. split; auto. apply Qcle_refl. Qed.
 
-(* the stack clause: levels (all fixed children but the last) are non-increasing, and the first
-   level plus the nanflow (last child) is the node's entries *)
-Definition xge (x y : xq) : Prop := xleb y x = true.
-Fixpoint nonincreasing (l : list xq) : Prop :=
-  match l with
-  | x :: ((y :: _) as l') => xge x y /\ nonincreasing l'
-  | _ => True
-  end.
+(* the stack clause: for thresholds -inf = t0 <= t1 <= ... the levels (all fixed children but the
+   last) are non-increasing, and the first level plus the nanflow (last child) is the node's entries *)
+Definition stack_ok (ts : list xq) : Prop :=
+  match ts with XNInf :: _ => ascending ts | _ => False end.
+
+Definition stack_clause (ts : list xq) (es : list xq) (e : xq) : Prop :=
+  stack_ok ts -> List.length es = S (List.length ts) ->
+  nonincreasing (removelast es) /\ xadd (hd (XF 0) es) (last es (XF 0)) = e.
 
 Fixpoint inv (a : xagg) : Prop :=
   match a with
@@ -50,7 +49,8 @@ Fixpoint inv (a : xagg) : Prop :=
       | KBin _ _ | KSparse _ _ | KCentral _ | KIrr _ | KCat => esum (kid_entries fx sp) = e
       | KLabel _ | KULabel _ | KIndex | KBranch => allP (fun c => entries_of c = e) fx
       | KFraction => match fx with den :: _ => entries_of den = e | [] => True end
-      | KStack _ | KSelect => True
+      | KStack ts => stack_clause ts (map (@entries_of Xq) fx) e
+      | KSelect => True
       end
   end.
 
@@ -85,6 +85,13 @@ Proof.
   - apply IH. discriminate.
 Qed.
 
+Lemma all_zero_hd_last (l : list xq) :
+  Forall (fun x => x = XF 0) l -> hd (XF 0) l = XF 0 /\ last l (XF 0) = XF 0.
+Proof.
+  induction 1 as [|x l Hx _ IH]; [split; reflexivity|]. subst x. split; [reflexivity|].
+  destruct l; [reflexivity|]. cbn [last]. apply IH.
+Qed.
+
 Theorem inv_zero (a : xagg) : inv (zero a).
 Proof.
   induction a as [k q s | k q e fx sp tm ct IHfx _ _] using agg_ind'; cbn [zero inv].
@@ -99,7 +106,14 @@ Proof.
     { apply allP_Forall. apply Forall_forall. intros c Hc. apply in_map_iff in Hc.
       destruct Hc as (c0 & <- & _). apply entries_zero. }
     destruct k; try exact P; try exact C; try exact I.
-    destruct fx; cbn [map]; auto. apply entries_zero.
+    + (* Stack *)
+      intros _ _. split.
+      * rewrite removelast_map, removelast_map. apply nonincreasing_zeros.
+      * assert (Z : Forall (fun x => x = XF 0) (map (@entries_of Xq) (map zero fx))).
+        { apply Forall_forall. intros x Hx. apply in_map_iff in Hx. destruct Hx as (c & <- & Hc).
+          apply in_map_iff in Hc. destruct Hc as (c0 & <- & _). apply entries_zero. }
+        destruct (all_zero_hd_last _ Z) as [-> ->]. reflexivity.
+    + destruct fx; cbn [map]; auto. apply entries_zero.
 Qed.
 
 (* ================= + and * preserve the invariant ================= *)
@@ -184,6 +198,9 @@ Qed.
 Lemma Forall2_same_of_map (l l' : list xagg) : map zero l = map zero l' -> Forall2 same l l'.
 Proof. apply map_zero_Forall2. Qed.
 
+Lemma inv_nonneg (a : xagg) : inv a -> nonneg (entries_of a).
+Proof. destruct a; cbn [inv entries_of]; tauto. Qed.
+
 Theorem inv_add (a : xagg) : forall b, same a b -> wf a -> wf b -> inv a -> inv b -> inv (add_t a b).
 Proof.
   induction a as [k q s | k q e fx sp tm ct IHfx IHsp _] using agg_ind'; intros b S Wa Wb Ia Ib.
@@ -218,8 +235,36 @@ Proof.
       destruct H as [Hx H], H' as [Hy H']. split; auto. rewrite entries_add, Hx, Hy by assumption.
       reflexivity. }
     destruct k; auto.
-    destruct Efx as [|x y l l' Sxy F]; cbn [map2]; auto.
-    rewrite entries_add by assumption. rewrite Ik, Ik'. reflexivity.
+    + (* Stack: levels add up pointwise *)
+      intros Hok L.
+      assert (Hlen : List.length fx = List.length fx') by (clear -Efx; induction Efx; cbn; auto).
+      assert (Ez : map (@entries_of Xq) (map2 (@add_t Xq) fx fx') =
+                   zadd (map (@entries_of Xq) fx) (map (@entries_of Xq) fx')).
+      { clear -Efx. induction Efx as [|x y l l' Sxy F IH]; cbn [map2 map zadd]; auto.
+        rewrite entries_add by assumption. f_equal. exact IH. }
+      rewrite Ez in *.
+      assert (Ll : List.length (map (@entries_of Xq) fx) = List.length (map (@entries_of Xq) fx'))
+        by (rewrite !map_length; exact Hlen).
+      rewrite zadd_length in L by exact Ll.
+      assert (L' : List.length (map (@entries_of Xq) fx') = S (List.length ths)) by (rewrite <- Ll; exact L).
+      destruct (Ik Hok L) as [N1 H1]. destruct (Ik' Hok L') as [N2 H2].
+      assert (Nn : forall l : list xagg, allP inv l -> Forall nonneg (map (@entries_of Xq) l)).
+      { intros l Hl. apply allP_Forall in Hl. apply Forall_forall. intros x Hx.
+        apply in_map_iff in Hx. destruct Hx as (c & <- & Hc). rewrite Forall_forall in Hl.
+        apply inv_nonneg. apply Hl. exact Hc. }
+      split.
+      * rewrite removelast_zadd by exact Ll.
+        apply nonincr_zadd; auto.
+        -- apply Forall_removelast. apply Nn. exact Ifx.
+        -- apply Forall_removelast. apply Nn. exact Ifx'.
+        -- rewrite !removelast_length. f_equal. exact Ll.
+      * destruct (map (@entries_of Xq) fx) as [|a1 l1] eqn:E1; [discriminate|].
+        destruct (map (@entries_of Xq) fx') as [|a2 l2] eqn:E2; [discriminate|].
+        rewrite hd_zadd. rewrite (last_zadd (a1 :: l1) (a2 :: l2) (XF 0) (XF 0) (XF 0)) by (try discriminate; exact Ll).
+        cbn [hd] in H1, H2. rewrite <- H1, <- H2.
+        rewrite !xadd_assoc. f_equal. apply xadd_swap.
+    + destruct Efx as [|x y l l' Sxy F]; cbn [map2]; auto.
+      rewrite entries_add by assumption. rewrite Ik, Ik'. reflexivity.
 Qed.
 
 (* ---- scaling ---- *)
@@ -265,7 +310,24 @@ Proof.
     { clear. induction fx as [|x l IH]; cbn [map allP]; auto. intros [Hx H]. split; auto.
       rewrite entries_mul, Hx. reflexivity. }
     destruct k; auto.
-    destruct fx as [|den l]; cbn [map]; auto. rewrite entries_mul, Ik. reflexivity.
+    + (* Stack: every level is scaled by the same positive factor *)
+      intros Hok L.
+      assert (Em : map (@entries_of Xq) (map (fun c : xagg => @mul_t Xq c f) fx) =
+                   map (xmul f) (map (@entries_of Xq) fx)).
+      { rewrite !map_map. apply map_ext. intro c. apply entries_mul. }
+      rewrite Em in *. rewrite map_length in L.
+      destruct (Ik Hok L) as [N1 H1].
+      assert (Nn : Forall nonneg (map (@entries_of Xq) fx)).
+      { apply allP_Forall in Ifx. apply Forall_forall. intros x Hx.
+        apply in_map_iff in Hx. destruct Hx as (c & <- & Hc). rewrite Forall_forall in Ifx.
+        apply inv_nonneg. apply Ifx. exact Hc. }
+      assert (Z : xmul f (XF 0) = XF 0).
+      { destruct Hf as (p & -> & _). cbn [xmul]. f_equal. ring. }
+      split.
+      * rewrite removelast_map'. apply nonincr_scale; auto. apply Forall_removelast. exact Nn.
+      * rewrite <- Z at 1 2. rewrite hd_map', last_map'. rewrite <- xmul_add_distr_l by assumption.
+        rewrite H1. reflexivity.
+    + destruct fx as [|den l]; cbn [map]; auto. rewrite entries_mul, Ik. reflexivity.
 Qed.
 
 (* ================= fill preserves the invariant ================= *)
@@ -585,6 +647,34 @@ Proof.
     destruct W as [_ W], C as [_ C], A as [_ A], O as [_ O], I as [_ I]. apply IHl; assumption.
 Qed.
 
+(* what each child's entries grow by *)
+Lemma flist_zipw (f : xagg -> xq -> xagg * outcome) ws (l l' : list xagg) :
+  Forall (fun c => forall w c', okw w -> f c w = (c', Done) -> entries_of c' = xadd (entries_of c) w) l ->
+  Forall okwo ws ->
+  flist f (fun c => c) ws l = (l', Done) ->
+  map (@entries_of Xq) l' = zipw (map (@entries_of Xq) l) ws.
+Proof.
+  revert ws l'. induction l as [|c l IH]; intros ws l' F Fw E.
+  - rewrite flist_nil in E. inversion E; subst. destruct ws; reflexivity.
+  - inversion F as [|? ? Hc Fl]; subst. destruct ws as [|[w|] ws].
+    + rewrite flist_nows in E. destruct (flist f (fun c => c) [] l) as [l'' o'] eqn:El. inversion E; subst.
+      cbn [map zipw]. f_equal. rewrite (IH [] l'' Fl Fw El). destruct (map (@entries_of Xq) l); reflexivity.
+    + inversion Fw as [|? ? Hw Fw']; subst.
+      rewrite flist_some in E. destruct (f c w) as [c' o] eqn:Ec. destruct o; [|discriminate].
+      destruct (flist f (fun c => c) ws l) as [l'' o'] eqn:El. inversion E; subst.
+      cbn [map zipw addw]. rewrite (Hc w c' Hw Ec). f_equal. apply (IH ws l'' Fl Fw' El).
+    + inversion Fw as [|? ? Hw Fw']; subst.
+      rewrite flist_none in E. destruct (flist f (fun c => c) ws l) as [l'' o'] eqn:El. inversion E; subst.
+      cbn [map zipw addw]. f_equal. apply (IH ws l'' Fl Fw' El).
+Qed.
+
+Lemma only_last m (w : xq) : @only Xq (S m) m w = map (fun _ => None) (seq 0 m) ++ [Some w].
+Proof.
+  unfold only. rewrite seq_S, map_app. cbn [map plus]. rewrite Nat.eqb_refl. f_equal.
+  apply map_ext_in. intros j Hj. apply in_seq in Hj. destruct (Nat.eqb j m) eqn:E; [|reflexivity].
+  apply Nat.eqb_eq in E. lia.
+Qed.
+
 Theorem inv_fill_gen (spec : xagg) : forall a d w a',
   same a spec -> wf a -> sc a -> arity a -> okw w -> okd a d -> inv a ->
   fill a d w = (a', Done) -> inv a'.
@@ -635,7 +725,8 @@ Proof.
                      esum (kid_entries fx'' sp'') = e''
                  | KLabel _ | KULabel _ | KIndex | KBranch => allP (fun c : xagg => entries_of c = e'') fx''
                  | KFraction => match fx'' with den :: _ => entries_of den = e'' | [] => True end
-                 | KStack _ | KSelect => True
+                 | KStack ts => stack_clause ts (map (@entries_of Xq) fx'') e''
+                 | KSelect => True
                  end -> inv a').
     { intros sp'' e'' -> H1 H2 H3. cbn [inv]. repeat split; assumption. }
     assert (Nw : nonneg (xadd e' w)) by (apply nonneg_add; [exact Ne | apply nonneg_okw; exact Hw]).
@@ -699,6 +790,46 @@ Proof.
           try (destruct (nisnan _)); inversion Er; reflexivity. }
       subst sk. inversion E; subst a'. apply (SP sp' (xadd e' w) eq_refl Isp0 Nw).
       destruct k; try discriminate; try exact I.
+      * (* Stack: the weight goes to the levels whose threshold the datum reaches (a prefix, the
+           thresholds being ascending), or to the nanflow *)
+        intros Hok L.
+        rewrite (flist_zipw (fun c w' => fill c d w') ws fx' fx'' Fent Fws Efl) in *.
+        rewrite zipw_length in L.
+        destruct (Ik Hok L) as [N1 H1].
+        assert (Nn : Forall nonneg (map (@entries_of Xq) fx')).
+        { apply allP_Forall in Ifx. apply Forall_forall. intros y Hy.
+          apply in_map_iff in Hy. destruct Hy as (c & <- & Hc). rewrite Forall_forall in Ifx.
+          apply inv_nonneg. apply Ifx. exact Hc. }
+        set (es := map (@entries_of Xq) fx') in *.
+        assert (Hne : es <> []) by (intro Z; rewrite Z in L; discriminate).
+        destruct (exists_last Hne) as (lv & en & Ees).
+        assert (Llv : List.length lv = List.length ths).
+        { rewrite Ees, app_length in L. cbn [List.length] in L. rewrite Nat.add_1_r in L.
+          injection L as L. exact L. }
+        rewrite Ees in H1, N1, Nn. rewrite removelast_last in N1. rewrite last_last in H1.
+        apply Forall_app in Nn. destruct Nn as [Nlv _].
+        unfold stack_ok in Hok. destruct ths as [|t0 ths']; [contradiction|].
+        destruct t0; try contradiction.
+        destruct lv as [|l0 lv']; [discriminate|]. cbn [app hd] in H1.
+        cbn [route] in Er. destruct (@as_real Xq v) as [x|]; [|discriminate].
+        assert (Hn' : List.length fx' = S (S (List.length ths'))).
+        { unfold es in L. rewrite map_length in L. exact L. }
+        destruct (@nisnan Xq x) eqn:Nx; inversion Er; subst ws; clear Er; change (T Xq) with xq in *.
+        -- (* NaN: only the nanflow *)
+           rewrite Hn'. replace (S (S (List.length ths')) - 1)%nat with (S (List.length ths')) by lia.
+           rewrite only_last. rewrite Ees.
+           rewrite zipw_app by (rewrite map_length, seq_length; cbn [List.length] in Llv |- *; exact Llv).
+           rewrite zipw_nones. cbn [addw]. rewrite removelast_last, last_last. split; [exact N1|].
+           cbn [app hd]. rewrite <- H1. rewrite xadd_assoc. reflexivity.
+        -- (* a number: the levels whose threshold it reaches *)
+           rewrite Ees.
+           change ((if xleb XNInf x then Some w else None)
+                   :: map (fun t : xq => if xleb t x then Some w else None) ths' ++ [None])
+             with (map (reach x w) (XNInf :: ths') ++ [None]). rewrite zipw_app by (rewrite map_length; cbn [List.length] in Llv |- *; exact Llv).
+           cbn [addw]. rewrite removelast_last, last_last. split.
+           ++ apply nonincr_reach; auto.
+           ++ cbn [map zipw app hd]. unfold reach at 1. rewrite (xleb_ninf x Nx). cbn [addw].
+              rewrite <- H1. rewrite !xadd_assoc. f_equal. apply xadd_comm.
       * (* Fraction: the denominator (first child) receives the weight *)
         cbn [route] in Er. destruct (@as_real Xq v) as [x|]; [|discriminate]. inversion Er; subst ws.
         destruct fx' as [|den rest]; [rewrite flist_nil in Efl; inversion Efl; exact I|].
